@@ -37,8 +37,11 @@ RULE = ("every input of: (bytes) all byte strings of length <= 2 over all 256 va
         "conditionals open and closed; string, character constant, text and array block open or just terminated; macro call open; backslash; CR; and code after an escaped newline) "
         "plus 11 endings of an included file x {text follows the #include, #include is the last line}, read from a file and handed over as pre_text, each after 6 previously "
         "compiled files (nothing, short, long valid, long ending in a // comment, long with a syntax error, long ending inside a text block) and compared with the outcome after nothing; "
+        "text and array blocks whose lines put a quote, backslash, backslash-quote, two quotes or a plain character on each of 91 positions around the end of the first and of the "
+        "second 4096-byte collection chunk; tokens of 200, 250..260, 300, 600, 1000 bytes in 24 places (pending at a syntax error, at an inherit of an unloaded program, at the end "
+        "of the file; quoted by each kind of compile message); "
         "(hist) all ordered tuples over 25 state-leaving "
-        "candidates loaded with load_object() as genuine histories, each step compared with its fresh-driver outcome; (histpol) the same histories over 28 candidates "
+        "candidates loaded with load_object() as genuine histories, each step compared with its fresh-driver outcome; (histpol) the same histories over 30 candidates "
         "under master policies: each apply the driver makes during a compile (log_error, valid_override, valid_save_binary, error_handler) plain / calling a loaded object / "
         "calling an object that must be compiled first / raising an error - all 256 combinations for single loads, one apply at a time for ordered pairs and triples (quick: pairs under the 6 policies "
         "{log_error, valid_override, valid_save_binary} x {loads an object, raises an error}; thorough: pairs under all 12, triples under those 6). "
@@ -72,8 +75,8 @@ def run(ck):
         ck.enum(exe, ["--part=sweep", "--maxlocals=6"], "sweep-locals6", batch=150, deadline_s=_left(ck, budget), timeout_ms=20000, jobs=J)
         ck.enum(exe, ["--part=sweep"], "sweep", batch=100, deadline_s=_left(ck, budget), timeout_ms=20000, jobs=J)
         ck.enum(exe, ["--part=hist", "--hist-len=2"], "hist2", batch=25, deadline_s=_left(ck, budget), timeout_ms=20000, jobs=J)
-        ck.enum(exe, ["--part=histpol", "--hist-len=1"], "histpol1", batch=28, deadline_s=_left(ck, budget), timeout_ms=20000, jobs=J)
-        ck.enum(exe, ["--part=histpol", "--hist-len=2", "--pol-small=1"], "histpol2", batch=28, deadline_s=_left(ck, budget), timeout_ms=20000, jobs=J)
+        ck.enum(exe, ["--part=histpol", "--hist-len=1"], "histpol1", batch=30, deadline_s=_left(ck, budget), timeout_ms=20000, jobs=J)
+        ck.enum(exe, ["--part=histpol", "--hist-len=2", "--pol-small=1"], "histpol2", batch=30, deadline_s=_left(ck, budget), timeout_ms=20000, jobs=J)
         ck.enum(exe, ["--part=edit", "--edit-subst-progs=12"], "edit-d40-s12", batch=300, deadline_s=_left(ck, budget), timeout_ms=10000, jobs=J)
         ck.enum(exe, ["--part=tok", "--tok-len=3"], "tok3", batch=400, deadline_s=_left(ck, budget), timeout_ms=10000, jobs=J)
         ck.enum(exe, ["--part=bytes2", "--to=65793"], "bytes2-fd", batch=400, deadline_s=_left(ck, budget), timeout_ms=10000, jobs=J)
@@ -85,9 +88,9 @@ def run(ck):
         ck.enum(exe, ["--part=sweep", "--maxlocals=6"], "sweep-locals6", batch=150, deadline_s=_left(ck, budget), timeout_ms=20000, jobs=J)
         ck.enum(exe, ["--part=sweep", "--thorough=1"], "sweep", batch=60, deadline_s=_left(ck, budget), timeout_ms=60000, jobs=J)
         ck.enum(exe, ["--part=hist", "--hist-len=3"], "hist3", batch=25, deadline_s=_left(ck, budget), timeout_ms=20000, jobs=J)
-        ck.enum(exe, ["--part=histpol", "--hist-len=1"], "histpol1", batch=28, deadline_s=_left(ck, budget), timeout_ms=20000, jobs=J)
-        ck.enum(exe, ["--part=histpol", "--hist-len=2"], "histpol2", batch=28, deadline_s=_left(ck, budget), timeout_ms=20000, jobs=J)
-        ck.enum(exe, ["--part=histpol", "--hist-len=3", "--pol-small=1"], "histpol3", batch=28, deadline_s=_left(ck, budget), timeout_ms=20000, jobs=J)
+        ck.enum(exe, ["--part=histpol", "--hist-len=1"], "histpol1", batch=30, deadline_s=_left(ck, budget), timeout_ms=20000, jobs=J)
+        ck.enum(exe, ["--part=histpol", "--hist-len=2"], "histpol2", batch=30, deadline_s=_left(ck, budget), timeout_ms=20000, jobs=J)
+        ck.enum(exe, ["--part=histpol", "--hist-len=3", "--pol-small=1"], "histpol3", batch=30, deadline_s=_left(ck, budget), timeout_ms=20000, jobs=J)
         ck.enum(exe, ["--part=edit"], "edit", batch=300, deadline_s=_left(ck, budget), timeout_ms=10000, jobs=J)
         ck.enum(exe, ["--part=tok", "--tok-len=4"], "tok4", batch=500, deadline_s=_left(ck, budget), timeout_ms=10000, jobs=J)
         ck.enum(exe, ["--part=class", "--class-len=3"], "class3", batch=400, deadline_s=_left(ck, budget), timeout_ms=10000, jobs=J)
